@@ -78,8 +78,12 @@ def show_cell(c):
     b = None if is_ti else c.bytes_on_first_page
     page = c._dump_page
     digest = bytes(page[int(c.start_offset): int(c.end_offset)])
+    if not is_ti and c.has_overflow:
+        digest += bytes(c.overflow)
+    from sqlite_dissect.utilities import get_md5_hash
+    mark = "" if get_md5_hash(digest) == c.md5_hex_digest else "!md5-covers-other-bytes"
     return (f"{c.index}@{c.start_offset}-{int(c.end_offset)}/bs{int(c.byte_size)}/lc{opt(lc)}/r{opt(rowid)}/p{opt(p)}"
-            f"/b{opt(None if b is None else int(b))}/ov[{ov}]{rec}/d{hx(digest)}")
+            f"/b{opt(None if b is None else int(b))}/ov[{ov}]{rec}/d{hx(digest)}{mark}")
 
 
 TYPE_NAMES = {
@@ -352,3 +356,64 @@ def dump_history(db_path, wal_path, mem=False, strict=True, size=None, wal_size=
     except Exception as e:  # noqa
         traceback.print_exc()
         return "dump-failed " + classify(e), vh, e
+
+
+# --------------------------------------------------------------------------- version history iterator
+from sqlite_dissect import interface as _interface
+
+
+def fnv(b):
+    h = 14695981039346656037
+    for x in bytes(b):
+        h = ((h ^ x) * 1099511628211) % 18446744073709551616
+    return h
+
+
+def cell_digest_bytes(cell, version_history):
+    """the bytes the cell's md5 covers: page[start:end] of the page image the cell was parsed from"""
+    v = version_history.versions[cell.version_number]
+    page = v.get_page_data(cell.page_number)
+    d = bytes(page[int(cell.start_offset):int(cell.end_offset)])
+    if getattr(cell, "has_overflow", False):
+        d += bytes(cell.overflow)
+    return d
+
+
+def show_hcell(c, vh):
+    rid = getattr(c, "row_id", None)
+    return f"{opt(rid)}/{fnv(cell_digest_bytes(c, vh))}"
+
+
+def show_commit(c, vh):
+    def cells(d):
+        return ",".join(show_hcell(x, vh) for x in d.values())
+    return (f"C{c.version_number}:root{c.root_page_number}:upd{b01(bool(c.updated_b_tree_page_numbers is not None))}"
+            f":pages[{','.join(map(str, c.b_tree_page_numbers))}]"
+            f":updpages[{','.join(map(str, c.updated_b_tree_page_numbers or []))}]"
+            f":A[{cells(c.added_cells)}]:U[{cells(c.updated_cells)}]:D[{cells(c.deleted_cells)}]")
+
+
+def dump_iter(db_path, wal_path, name, mem=False, strict=True):
+    """Returns (canonical string, commits or None, vh)"""
+    try:
+        db = Database(db_path, store_in_memory=mem, strict_format_checking=strict)
+    except Exception as e:  # noqa
+        return stage_err("db", e), None, None
+    wal = None
+    if wal_path:
+        try:
+            wal = WriteAheadLog(wal_path, store_in_memory=mem, strict_format_checking=strict)
+        except Exception as e:  # noqa
+            return stage_err("wal", e), None, None
+    try:
+        vh = VersionHistory(db, wal)
+    except Exception as e:  # noqa
+        return stage_err("vh", e), None, None
+    try:
+        it = _interface.get_version_history_iterator(name, vh)
+        commits = list(it)
+    except KeyError as e:
+        return "err keyError", None, vh
+    except Exception as e:  # noqa
+        return stage_err("iter", e), None, vh
+    return "ok " + SEP.join(show_commit(c, vh) for c in commits), commits, vh
